@@ -576,7 +576,7 @@ fn c02_payload_values_6() { payload_values_case::<6>(); }
 
 // ------------------------------------------------------------------------------------------------ parse(): loop glue
 
-// @harness name=c02_parse_glue_skip props=C02,C03,C05 tier=thorough timeout=7000 rmbody=ioerr,nogrow mem=24
+// @harness name=c02_parse_glue_skip props=C02,C03,C05 tier=manual timeout=7000 rmbody=ioerr,nogrow mem=24
 // @bound whole parse(n, None) in State::Skip with active stream None (every record is skipped): payload_rem / padding_rem symbolic, 0..9 raw bytes + 0..9 new bytes (at most one following header), record types restricted to ignorable known types; checks payload->padding->header sequencing and accounting
 // @functions stream::Parser::parse, parse_payload, parse_head, padding step
 #[kani::proof]
